@@ -117,7 +117,7 @@ func compare(a, b interface{}, c collate) int {
 		case int64:
 			return cmpInt64(at, bt)
 		case float64:
-			return cmpFloat64(float64(at), bt)
+			return cmpIntFloat(at, bt)
 		case string, []byte:
 			return -1
 		default:
@@ -128,7 +128,7 @@ func compare(a, b interface{}, c collate) int {
 		case nil:
 			return 1
 		case int64:
-			return cmpFloat64(at, float64(bt))
+			return -cmpIntFloat(bt, at)
 		case float64:
 			return cmpFloat64(at, bt)
 		case string, []byte:
@@ -171,6 +171,24 @@ func cmpInt64(a, b int64) int {
 	default:
 		return 1
 	}
+}
+
+// cmpIntFloat compares an integer with a real by exact numeric value, as
+// SQLite does (sqlite3IntFloatCompare). Converting the integer to float64
+// first would round it above 2^53 and report e.g. 2^53+1 == 2^53.0.
+func cmpIntFloat(i int64, r float64) int {
+	if r < -9223372036854775808.0 {
+		return 1
+	}
+	if r >= 9223372036854775808.0 {
+		return -1
+	}
+	if y := int64(r); i < y {
+		return -1
+	} else if i > y {
+		return 1
+	}
+	return cmpFloat64(float64(i), r)
 }
 
 func cmpFloat64(a, b float64) int {
